@@ -1,6 +1,6 @@
 (* C06 — optimize terminates, respects purity, and reaches a minimal fixpoint. Property theorems only. *)
 Require Import ZArith NArith Bool List Arith. Import ListNotations.
-Require Import F64 Dec Types Generic Lang Opt IO OptFacts.
+Require Import F64 Dec Types Generic Lang Opt IO OptFacts OptFacts2 OptFacts3 OptFacts4.
 
 (* termination with the closed-form fuel the extracted run_opt uses: never OutOfFuel, for every tree and environment *)
 Theorem C06_terminates : forall E e acc, fst (fst (optimize_t E (opt_fuel e) e acc)) <> Generic.OOutOfFuel.
@@ -16,3 +16,25 @@ Print Assumptions C06_fixpoint.
 Theorem C06_idempotent : forall E k e acc e' tr j acc', optimize_t E k e acc = (Generic.OOk, e', tr) -> fst (optimize_t E (S j) e' acc') = (Generic.OOk, e').
 Proof. exact idempotent. Qed.
 Print Assumptions C06_idempotent.
+
+(* while running, optimize performs no variable lookup and calls only functions the environment reports as pure (the trace is the
+   sequence of lookups and native calls of every evaluation the optimizer performs) - for every tree, environment and fuel *)
+Theorem C06_purity : forall E k e acc, Forall (pure_call E) acc -> Forall (pure_call E) (snd (optimize_t E k e acc)).
+Proof. exact optimize_pure. Qed.
+Theorem C06_purity_from_scratch : forall E e, Forall (pure_call E) (snd (optimize_t E (opt_fuel e) e [])).
+Proof. intros E e. apply optimize_pure. constructor. Qed.
+Print Assumptions C06_purity.
+(* a successful result contains no constant-foldable node - no operator or array whose operands are all literals, no call of a pure
+   function within its registered arity whose arguments are all literals, no conditional with a literal condition - and no
+   three-argument if_then call *)
+Theorem C06_minimal : forall E k e acc e' tr, optimize_t E k e acc = (Generic.OOk, e', tr) -> has_foldable E e' = false /\ Generic.no_if3 e' = true.
+Proof. exact optimize_result_minimal. Qed.
+Print Assumptions C06_minimal.
+(* and has no more nodes than its input (also when optimize stops with an error) *)
+Theorem C06_no_more_nodes : forall E k e acc, nodes (snd (fst (optimize_t E k e acc))) <= nodes e.
+Proof. exact optimize_t_nodes. Qed.
+Example C06_example : let E := mk_env [] [([107%N], (KConst (VNum (of_int 7)), Poly 0 0, true)); ([105%N], (KConst (VNum (of_int 7)), Poly 0 0, false))] in
+  let e := EBin Plus (ECall [107%N] []) (EBin Plus (ECall [105%N] []) (EVar [120%N])) in
+  expr_eqb (snd (fst (optimize_t E (opt_fuel e) e []))) (EBin Plus (ELit (VNum (of_int 7))) (EBin Plus (ECall [105%N] []) (EVar [120%N]))) = true /\
+  length (snd (optimize_t E (opt_fuel e) e [])) = 1%nat.
+Proof. vm_compute. auto. Qed.
